@@ -17,7 +17,7 @@ Lemma mutate_preserves m r r' :
   mutate m r = Some r' ->
   r_key r' = r_key r /\ r_ver r' = r_ver r /\ r_owner r' = r_owner r /\ r_created r' = r_created r.
 Proof.
-  revert r r'. induction m as [| | | fs | fs | v | k v | a IHa b IHb]; intros r r' H; simpl in H;
+  revert r r'. induction m as [| | | fs | fs | v | k v | | a IHa b IHb]; intros r r' H; simpl in H;
     try (inversion H; subst; unfold r_key; simpl; tauto); try discriminate.
   destruct (mutate a r) as [r1|] eqn:Ea; [|discriminate].
   destruct (IHa _ _ Ea) as [A1 [A2 [A3 A4]]]. destruct (IHb _ _ H) as [B1 [B2 [B3 B4]]].
